@@ -1,7 +1,8 @@
 // Harness for property C15 (interrupts).  Two kinds of input lines:
 //
 //	case <api> <k> <v> <mode> <pre> <w> | <program>
-//	    api   run|call        outermost API call: RunString(program) or Callable(main) from Go while idle
+//	    api   run|call|try    outermost API call: RunString(program), Callable(main), or Runtime.Try around a Go-side
+//	                          property read whose getter is the program (Try does not drain the job queue)
 //	    k     0..             the k-th probe() calls Interrupt(v) (0 = never)
 //	    mode  self|self2|other   Interrupt called on the runner goroutine (self2: twice, the last value must win),
 //	                          or by a 2nd goroutine the probe waits for
@@ -17,6 +18,7 @@ package main
 import (
 	"errors"
 	"fmt"
+	"os"
 	"sort"
 	"strconv"
 	"strings"
@@ -309,6 +311,13 @@ func runCase(f []string, prog string) string {
 		}
 		callable, _ = goja.AssertFunction(e.rt.Get("main"))
 	}
+	var tryObj *goja.Object
+	if api == "try" {
+		if _, err := e.rt.RunString("var tryObj={get x(){" + src + "}}"); err != nil {
+			return "ERR setup: " + common.OneLine(err.Error())
+		}
+		tryObj = e.rt.Get("tryObj").ToObject(e.rt)
+	}
 	switch pre {
 	case "intr":
 		e.rt.Interrupt(w)
@@ -317,9 +326,26 @@ func runCase(f []string, prog string) string {
 		e.rt.ClearInterrupt()
 	}
 	var err error
-	if api == "call" {
+	switch api {
+	case "call":
 		_, err = callable(goja.Undefined())
-	} else {
+	case "try":
+		err = func() (err error) {
+			defer func() {
+				if x := recover(); x != nil { // Runtime.Try re-panics uncatchable errors
+					if xe, ok := x.(error); ok {
+						err = xe
+					} else {
+						panic(x)
+					}
+				}
+			}()
+			if ex := e.rt.Try(func() { tryObj.Get("x") }); ex != nil {
+				return ex
+			}
+			return nil
+		}()
+	default:
 		_, err = e.rt.RunString(src)
 	}
 	res := classify(err)
@@ -341,6 +367,7 @@ var soakScripts = []struct{ name, src string }{
 	{"getter", "var o={get x(){tick();return 1}};for(;;){o.x}"},
 	{"generator", "function* g(){for(;;){try{tick();yield 1}finally{tick()}}};for(const x of g()){tick()}"},
 	{"iterator", "var it={[Symbol.iterator](){return{next(){tick();return{value:1,done:false}},return(){bad();return{}}}}};for(const x of it){tick()}"},
+	{"iterator-native-return", "var it={[Symbol.iterator](){return{next(){tick();return{value:1,done:false}},return:bad}}};for(const x of it){tick()}"},
 	{"sort", "var a=[];for(var i=0;i<200;i++)a.push(i%7);for(;;){a.sort(function(x,y){tick();return x-y})}"},
 	{"job", "Promise.resolve().then(function(){for(;;){tick()}});Promise.resolve().then(function(){bad()})"},
 	{"jobchain", "function f(){tick();Promise.resolve().then(f)};f()"},
@@ -440,7 +467,14 @@ func soak(f []string) string {
 				atIntr = atomic.LoadInt64(&ticks) // Interrupt has returned: the store is visible
 				close(done)
 			}()
+			// a call that does not come back although Interrupt has returned is the symptom `hang` (30 s is four orders
+			// of magnitude above a normal round, so machine load cannot trigger it)
+			hang := time.AfterFunc(30*time.Second, func() {
+				fmt.Printf("soak bad=1 rounds=%d maxextra=0 extra0=0 extra1=0 kinds= fails=%s/hang:1 first=round %d %s: call did not return within 30 s\n", i, sc.name, i, sc.name)
+				os.Exit(3)
+			})
 			_, err := rt.RunString(sc.src)
+			hang.Stop()
 			<-done
 			end := atomic.LoadInt64(&ticks)
 			if got := classify(err); got != fmt.Sprintf("intr:%d", v) {
